@@ -60,6 +60,9 @@ class Engine:
 
     def __init__(self, concrete=None, feas_timeout_ms=1500, claim_timeout_ms=20000, seed=0):
         self.concrete = concrete
+        self.max_depth = 600
+        self.path_seconds = 120
+        self.path_deadline = None
         self.solver = z3.Solver()
         self.solver.set("timeout", feas_timeout_ms)
         if seed:
@@ -208,6 +211,10 @@ class Engine:
         return d
 
     def _branch(self, cond):
+        if self.pos >= self.max_depth:
+            raise EngineLimit(f"path deeper than {self.max_depth} decisions (unbounded loop under 'unknown' feasibility?)")
+        if self.path_deadline and time.time() > self.path_deadline:
+            raise EngineLimit("per-path time limit")
         if self.pos < len(self.decisions):
             d = self.decisions[self.pos]
             self.pos += 1
@@ -242,6 +249,22 @@ class Engine:
         self.pos += 1
         self._add(cond if d else z3.Not(cond))
         return d
+
+    def possible(self, cond):
+        """False only if ``cond`` is infeasible on the current path (no forking)."""
+        cond = z3.simplify(cond)
+        if _is_true(cond):
+            return True
+        if _is_false(cond):
+            return False
+        t0 = time.time()
+        self.feas_queries += 1
+        self.solver.push()
+        self.solver.add(cond)
+        r = self.solver.check()
+        self.solver.pop()
+        self.solver_time += time.time() - t0
+        return r != z3.unsat
 
     def concretize(self, e, limit=64):
         """Fork over all feasible integer values of ``e`` (at most ``limit``)."""
@@ -402,6 +425,7 @@ class Engine:
             self._occ = {}
             self.fresh_ctr = {}
             self.known = {}
+            self.path_deadline = time.time() + self.path_seconds
             self.solver.push()
             ENG = self
             self.active = True
